@@ -335,6 +335,21 @@ impl FileServer for FileServerReal
 			return Ok(*handle);
 		}
 
+		// The `<std>/` prefix names only the built-in library,
+		// never a directory on disk that happens to be called `<std>`
+		// (from which `..` could lead anywhere).
+		if util::is_std_path(filename)
+		{
+			report_error(
+				report,
+				span,
+				format!(
+					"file not found: `{}`",
+					filename));
+			
+			return Err(());
+		}
+
 		let filename_path = std::path::PathBuf::from(filename);
 
 		if !filename_path.exists()
